@@ -161,6 +161,10 @@ func (v *RuleVistor) Process(node *Node) {
 		for _, ruledef := range n.RuleDefList {
 			//fmt.Println(ruledef)
 			leftpart := ruledef.LeftPart
+			if id := v.idsymtabl[leftpart]; id != nil && id.IDTyp == TERMID {
+				// the token would turn into a nonterminal that keeps its place among the terminals
+				panic("rule given for token " + leftpart)
+			}
 			if v.idsymtabl[leftpart] == nil {
 				//Append new name
 				v.idMaxValue++
